@@ -62,11 +62,18 @@ func (c *decoratorController) callHook(
 		}
 	}
 
+	// Drop null entries: everything downstream dereferences the children.
+	nonNil := response.Attachments[:0]
 	for _, child := range response.Attachments {
-		if child != nil && child.GetNamespace() == "" {
+		if child == nil {
+			continue
+		}
+		if child.GetNamespace() == "" {
 			child.SetNamespace(parent.GetNamespace())
 		}
+		nonNil = append(nonNil, child)
 	}
+	response.Attachments = nonNil
 
 	return &response, nil
 }
